@@ -26,6 +26,10 @@ def run(chk: Check) -> None:
     # concurrent.futures.CancelledError -- an Exception; the stepping code lets nothing of that kind through ahead of its catch-all (shared with C03)
     from .c03 import reraised_ahead_of_catch_all
     reraised_ahead_of_catch_all(chk, 'ESC-awaited-failure')
+    # each barrier waits for ITS items: the table of awaited items is per state object (a mutable class-level default filled in place would be one table for every
+    # waiting work chain in the interpreter: stale futures of an earlier chain under foreign keys, two chains waiting on each other's items)
+    from .common import no_shared_mutable_class_state
+    no_shared_mutable_class_state(chk, 'DOM-barrier-wait', roots=('process_states.State',))
     # 1. registration: a step that registered awaitables is followed only through WAITING
     ds = prog.view(prog.func('workchains.WorkChain._do_step'))   # (a helper that picks the next command is part of the step)
     cfg = cfg_of(ds)
